@@ -32,6 +32,11 @@ def strategy_(draw, tier):
     raw = draw(st.integers(0, 9)) == 0
     depth = draw(st.integers(0, 3))
     comps = [draw(gen.names(raw=raw, long_ok=(i == depth))) for i in range(depth + 1)]
+    if draw(st.integers(0, 24)) == 0:
+        # a deep location whose escaped form is several kB long (every byte becomes %XX),
+        # still far below PATH_MAX: 5-8 directories named with 60-100 multi-byte characters
+        ch = draw(st.sampled_from(["\u6587", "\u00e9", " ", "%"]))
+        comps = [ch * draw(st.integers(60, 80)) + str(i) for i in range(draw(st.integers(5, 8)))] + comps[-1:]
     tkind = draw(st.sampled_from(["home", "home", "top_sticky", "top_alt"]))
     kind = draw(st.sampled_from(["file", "empty", "dir", "link_dangling"]))
     secs = draw(st.one_of(st.integers(0, 4 * 10 ** 9), st.sampled_from(
